@@ -278,6 +278,7 @@ func runC11(c *Ctx, pr *PropertyRun) {
 	pr.Trusted = append(pr.Trusted, "golang.org/x/tools/go/ssa v0.29.0")
 
 	c11Accounting(c, pr)
+	propSetTables(c, pr, "C11", []string{pkgWebdav, pkgCaldav, pkgCarddav})
 
 	scope := NewRule("C11", "C11.scope", "the responses emitted by the three adapters' PropFind as a function of Depth, hierarchy level and ownership equal the level table (E2)")
 	scope.Exhaustive = true
@@ -421,7 +422,7 @@ func c11WebdavScope(c *Ctx, r *RuleResult) {
 	npr := p.Func(pkgInternal, "NewPropFindResponse")
 	respT := p.NamedType(pkgInternal, "Response")
 	spec := DTXSpec{Name: "webdav.backend.PropFind", Entry: fn,
-		Sym: SymSpec{NonNil: func(string) bool { return true }},
+		Sym: SymSpec{NonNil: func(string) bool { return true }, IntDomain: func(string) []int64 { return []int64{0, 7} }},
 		Setup: func(in *Interp) {
 			in.Models = append(in.Models, func(in *Interp, site ssa.CallInstruction, name string, args []Val) (Val, bool) {
 				cc := site.Common()
